@@ -12,6 +12,15 @@ from .core import BIN, goenv
 
 GENRUN = os.path.join(BIN, "genrun")
 
+
+def limited(gb=6):
+    """preexec_fn for child processes that run goa's generators: an address-space limit, so that a generator that
+    never terminates (a known finding for recursive gRPC types) cannot take the machine's memory with it"""
+    def fn():
+        import resource
+        resource.setrlimit(resource.RLIMIT_AS, (gb << 30, gb << 30))
+    return fn
+
 FLAG_CYCLE = [[], ["-errors"], ["-security"], ["-errors", "-security", "-risky-names"], ["-nested-inline"], ["-risky-names"], ["-errors", "-risky-names"]]
 
 
@@ -55,7 +64,7 @@ def run_design(design_json, workdir, example=False, twice=False, timeout=180):
     if twice:
         cmd.append("-twice")
     try:
-        p = subprocess.run(cmd, capture_output=True, text=True, env=goenv(), timeout=timeout)
+        p = subprocess.run(cmd, capture_output=True, text=True, env=goenv(), timeout=timeout, preexec_fn=limited())
     except subprocess.TimeoutExpired:
         return {"crash": "timeout after %ss" % timeout}
     try:
